@@ -4,7 +4,9 @@
 
   At every step
     (a) a task whose start dependencies are satisfied is no longer NONE          (`C06_ready…`),
-    (b) an automatic task that is not bound to a component never waits in READY  (`C06_auto…`),
+    (b) an automatic task that is not bound to a component never waits in READY at the end of
+        an ACTIVE step (a working step, or any step when automatic tasks are performed during
+        absence; at a project absence step with the flag off nothing starts)     (`C06_auto…`),
     (c) no worker stays FREE while a READY or WORKING task exists that the worker is eligible
         for and that can still accept the worker — claimed for tasks that need no facility
                                                                                   (`C06_idle…`),
@@ -72,23 +74,34 @@ theorem C06_auto (m : Model) (l : Live) (t : Nat) (ht : t < m.nT)
     (chkWorking m l).tstate t ≠ .ready :=
   NoWait.chkWorking_auto m l t ht ha hc
 
-/-- **C06 (b)** at the end of one loop step (working step or not). -/
+/-- **C06 (b)** at the end of one ACTIVE loop step: a working step, or any step when
+`perform_auto_task_while_absence_time` is set (`activeAt p s.time`).
+
+The statement for every step,
+  `(stepBody m p s).live.tstate t ≠ .ready`  without `hact`,
+is false since nothing starts at a project absence step with the flag off (see the `example`
+below `C06Ex.lA`): the property only speaks about steps at which the task can be performed. -/
 theorem C06_auto_step (m : Model) (p : Params) (s : St) (t : Nat) (ht : t < m.nT)
-    (ha : (m.task t).isAuto = true) (hc : (m.task t).comp = Option.none) :
+    (ha : (m.task t).isAuto = true) (hc : (m.task t).comp = Option.none)
+    (hact : activeAt p s.time = true) :
     (stepBody m p s).live.tstate t ≠ .ready :=
-  NoWait.stepBody_auto m p s t ht ha hc
+  NoWait.stepBody_auto m p s t ht ha hc hact
 
-/-- **C06 (b)** at every `ticked` state of the loop, from any starting state. -/
+/-- **C06 (b)** at every `ticked` state of the loop that was produced by an active step, from
+any starting state. -/
 theorem C06_auto_trace (m : Model) (p : Params) (fuel : Nat) (s : St) :
-    ∀ s' ∈ trace m p fuel s, ∀ t, t < m.nT →
+    ∀ s' ∈ trace m p fuel s, activeAt p (s'.time - 1) = true → ∀ t, t < m.nT →
       (m.task t).isAuto = true → (m.task t).comp = Option.none → s'.live.tstate t ≠ .ready := by
-  intro s' hs' t ht ha hc
+  intro s' hs' hact t ht ha hc
   obtain ⟨s1, rfl⟩ := Lifecycle.trace_mem_stepBody m p fuel s s' hs'
-  exact NoWait.stepBody_auto m p s1 t ht ha hc
+  have htime : (stepBody m p s1).time - 1 = s1.time := by
+    rw [Alloc.stepBody_time]; omega
+  rw [htime] at hact
+  exact NoWait.stepBody_auto m p s1 t ht ha hc hact
 
-/-- **C06 (b)** at every `ticked` state of `simulate m p s`. -/
+/-- **C06 (b)** at every `ticked` state of `simulate m p s` produced by an active step. -/
 theorem C06_auto_run (m : Model) (p : Params) (s : St) :
-    ∀ s' ∈ runTrace m p s, ∀ t, t < m.nT →
+    ∀ s' ∈ runTrace m p s, activeAt p (s'.time - 1) = true → ∀ t, t < m.nT →
       (m.task t).isAuto = true → (m.task t).comp = Option.none → s'.live.tstate t ≠ .ready :=
   C06_auto_trace m p _ _
 
@@ -119,6 +132,19 @@ example : C06Ex.lA.tstate 0 = .ready ∧ (C06Ex.mA.task 0).isAuto = true ∧
     (C06Ex.mA.task 0).comp = Option.none ∧
     (chkWorking C06Ex.mA C06Ex.lA).tstate 0 = .working ∧
     (chkWorking C06Ex.mA C06Ex.lA).tstate 1 = .ready := by decide +kernel
+
+/-- `C06_auto_step`: at a working step the READY automatic task 0 is started (premises
+satisfiable); at a project absence step it is started when the flag is set, and stays READY when
+the flag is off — which is why `hact` cannot be dropped -/
+example :
+    activeAt {} ({ St.fresh with live := C06Ex.lA }).time = true ∧
+    (stepBody C06Ex.mA {} { St.fresh with live := C06Ex.lA }).live.tstate 0 = .working ∧
+    activeAt { absence := [0], autoFlag := true } ({ St.fresh with live := C06Ex.lA }).time = true ∧
+    (stepBody C06Ex.mA { absence := [0], autoFlag := true }
+      { St.fresh with live := C06Ex.lA }).live.tstate 0 = .working ∧
+    activeAt { absence := [0] } ({ St.fresh with live := C06Ex.lA }).time = false ∧
+    (stepBody C06Ex.mA { absence := [0] } { St.fresh with live := C06Ex.lA }).live.tstate 0 = .ready := by
+  decide +kernel
 
 /-! ## (d) finishing at the very next step -/
 
